@@ -98,6 +98,10 @@ def three_moments(x):
 # ------------------------------------------------------------------------------------------ Fourier
 def fourier_1d(kind, f):
     def mask(n_freq):
+        if abs((f * n_freq) % 1.0 - 0.5) < 1e-12 and int(f * n_freq) % 2 == 0:
+            # exact half-way on which round-half-even and round-half-up disagree: "keep the fraction f of the frequencies" does not
+            # say which way to round; not asserted either way (ties where both rules agree are judged)
+            raise ValueError("rounding tie")
         cut = np.round(f * n_freq)
         k = np.arange(n_freq)
         if kind == "ideal":
